@@ -21,7 +21,7 @@ PROPS = {
         "undecided": ["write() refusing >4GiB without large_file and poisoning the writer; finalize() ZIP64 end-record decision (unit U7)", "get_directory_counts: ZIP64 locator probe and archive offset (unit U8)"],
     },
     "C03": {
-        "units": ["U4_end_records", "U6_central_parser", "U8_entry_readers"],
+        "units": ["U4_end_records", "U6_central_parser", "U8_entry_readers", "U8b_archive"],
         "kani": ["types"],
         "technique": "Verus contracts on the end-record search/parsers against APPNOTE spec functions; Kani complete harness for the attribute-to-mode table",
         "level_text": "Deductive proof over all byte strings and all I/O outcomes: the end-of-central-directory search returns the last signature occurrence whose record fits (so trailing garbage is tolerated), every field equals the APPNOTE 4.3.16/4.3.15/4.3.14 decode of the bytes at that offset, the ZIP64 forward search returns the first record at or after the nominal offset, and an error is returned only on a device fault or when no well-formed record exists in the window. unix_mode() is proved for all 2^32 attribute words x 256 systems with Kani.",
@@ -37,12 +37,36 @@ PROPS = {
         "undecided": ["by_index_with_optional_password hands the central directory's crc32 and method to make_crypto_reader/ZipFile (archive-level unit, not built yet)"],
     },
     "C05": {
-        "units": ["U4_end_records", "U6_central_parser", "U8_entry_readers"],
+        "units": ["U4_end_records", "U6_central_parser", "U8_entry_readers", "U8b_archive", "U11_aes", "U10_zipcrypto"],
         "kani": ["types"],
         "technique": "Verus panic-freedom and termination obligations on the parsers under the arbitrary-bytes I/O model",
         "level_text": "Deductive proof over ARBITRARY byte strings (the device model puts no constraint on content) and all I/O outcomes that the end-record searches, the central-header parser, the extra-field walk, the local-header locator, the crypto/decoder stack constructors, the streaming local-header reader and the drain-on-drop loop never overflow, index out of range, unwrap a None/Err or reach a panic!, and that every loop terminates (decreases clauses); allocations are bounded by 16-bit length fields read from the input. The method-99 and password-unwrap panics fixed in /repo are pinned by named clauses.",
         "level_note": "memory bound while opening (Vec::with_capacity from the declared count) and the directory loop are in ZipArchive::new (archive-level unit, not built yet); AES reader underflow guard is unit U11; decompressor robustness on garbage is assumed; to_time totality is the Kani harness",
         "undecided": ["ZipArchive::new: capacity bound and directory loop; by_index/by_name error mapping (archive-level unit)", "AesReader::new underflow guard, AesReaderValid::read (unit U11)", "ZipWriter::new_append (unit U7)"],
+    },
+    "C09": {
+        "units": ["U9_crc", "U10_zipcrypto", "U11_aes", "U8_entry_readers", "U7a_writer_leaves"],
+        "kani": [],
+        "technique": "Verus stream-transformer contracts (state is a function of the bytes consumed) under an I/O model that quantifies over every short-read/short-write schedule",
+        "level_text": "Deductive proof that each reader layer advances its state by exactly the count the inner reader returned, whatever that count is: Crc32Reader hashes exactly the returned bytes; ZipCryptoReaderValid decrypts exactly the n bytes read and leaves the keys where n bytes put them (the repaired short-read defect, pinned by a named clause); AesReaderValid advances data_remaining, the HMAC view and the CTR key-stream offset by exactly n, with chunk-independence lemmas for the key stream and for composed reads; after end-of-data further reads return Ok(0) without effect; the raw Take path passes the device bytes through unchanged. On the write side ZipCryptoWriter buffers exactly what it accepts and ZipWriterStats accounts exactly the slice it is given; header writers only use all-or-error primitives.",
+        "level_note": "compressors/decompressors assumed chunk-independent; ZipWriter::write accounting the accepted count (not buf.len()) is in unit U7 (not built yet): undecided; vstd's slice iterator specs are trusted for the iter_mut loops",
+        "undecided": ["ZipWriter::write: stats and hasher advance by the count the sink accepted (unit U7)"],
+    },
+    "C15": {
+        "units": ["U10_zipcrypto", "U8_entry_readers", "U8b_archive", "U5_header_writers"],
+        "kani": [],
+        "technique": "Verus contracts on the ZipCrypto stream functions over an abstract byte step + password/validator decisions in the open path",
+        "level_text": "Deductive proof, for all passwords, contents and chunkings, that: keys are derived by absorbing the whole password; validate consumes the 12-byte header, accepts exactly when its last decrypted byte equals crc>>24 (PKZIP) or time>>8 (Info-ZIP variant, chosen exactly for data-descriptor entries); reading decrypts exactly the bytes returned; the writer emits the encryption of header (check byte crc>>24) plus buffered data, with a proved inverse lemma dec(enc(p)) == p; an encrypted entry opened without password is refused with the password-required error and a password given for a plain entry is ignored; flag bit 0 is written for encrypted entries in both headers.",
+        "level_note": "the byte step (update / stream_byte / CRC table) is an abstract function in Verus; its equality with APPNOTE 6.1 is decided by the Kani group zipcrypto once registered; 'the plaintext does not appear in the file' is a statistical statement no contract can decide; start_entry/finish_file installing the ZipCryptoWriter is unit U7",
+        "undecided": ["byte step equals APPNOTE 6.1 (Kani group zipcrypto, pending registration)", "'plaintext does not appear in the file' (statistical; not a contract matter)", "ZipWriter::start_entry/finish_file wiring of the encrypting writer (unit U7)"],
+    },
+    "C16": {
+        "units": ["U11_aes", "U6_central_parser", "U8_entry_readers", "U8b_archive", "U9_crc"],
+        "kani": ["types"],
+        "technique": "Verus contracts on the AES reader (MAC-then-decrypt order, counters, key slicing) with the primitives uninterpreted",
+        "level_text": "Deductive proof that: AesReader::new refuses an entry shorter than salt+verifier+MAC (repaired underflow); validate reads salt and verifier, slices the PBKDF2 output as cipher key | MAC key | verifier and answers wrong-password exactly when the verifiers differ; read feeds exactly the returned ciphertext bytes to the HMAC before decrypting them with the little-endian CTR key stream starting at counter 1, and at the end of the payload reads the 10-byte code and fails unless it equals the first 10 bytes of the HMAC; the AES extra field is parsed per the WinZip layout in any record order (repaired skip defect); AE-2 alone exempts the CRC; no password gives the password-required/refused result.",
+        "level_note": "AES, HMAC-SHA1, PBKDF2 are uninterpreted functions: 'any change is detected' holds relative to them; xor() and cipher_from_mode are assumed contracts (iterator zip / Box<dyn>), the former to be covered by Kani; an entry with zero payload bytes is never MAC-checked (stated by the contract; the property exempts empty entries)",
+        "undecided": ["xor(): dest[i] ^= src[i] (assumed in Verus; Kani harness pending)"],
     },
     "C10": {
         "units": ["U8_entry_readers"],
